@@ -27,6 +27,17 @@ pub struct Ops<X: 'static> {
     pub js: fn(&X) -> Value,
 }
 
+/// panic signature with the toolchain hash of /rustc/<hash>/library/... paths erased
+fn stable_sig(p: &PanicInfo) -> String {
+    let s = p.signature();
+    if let Some(i) = s.find("/rustc/") {
+        if let Some(j) = s[i..].find("/library/") {
+            return format!("{}rustc{}", &s[..i], &s[i + j..]);
+        }
+    }
+    s
+}
+
 fn merge_push<X: PartialEq>(out: &mut Vec<(u128, Option<X>)>, count: u128, v: Option<X>) {
     if count == 0 {
         return;
@@ -445,7 +456,7 @@ fn load_case<X: Clone + PartialEq + std::fmt::Debug + 'static>(cx: &mut Ctx, ops
     let replay = json!({"kind": format!("load-{}", tag), "source": src, "bytes": hex(bytes)});
     let (st, runs, resaved): (u128, Vec<(u128, Option<X>)>, Option<Vec<u8>>) = match guard(|| (ops.load)(bytes)) {
         Err(p) => {
-            cx.rep.fail(&["C35", "C15"], &format!("hexenc|panic|load|{}", p.signature()),
+            cx.rep.fail(&["C35", "C15"], &format!("hexenc|panic|load|{}", stable_sig(&p)),
                 &format!("Column::<{}>::load panicked: {} at {}", tag, p.message, p.location), replay.clone());
             (3, vec![], None)
         }
@@ -518,6 +529,19 @@ fn load_cases<X: Clone + PartialEq + std::fmt::Debug + 'static>(cx: &mut Ctx, rn
     sleb(&mut p, 2);
     pack(&a, &mut p);
     probes.push(p);
+    // every slab below 2^64 items, the column not: the overflow is in the sum of the slab lengths
+    let mut p = vec![];
+    sleb(&mut p, i64::MAX);
+    pack(&a, &mut p);
+    for i in 0..31 {
+        sleb(&mut p, 2);
+        pack(if i % 2 == 0 { &b } else { &a }, &mut p);
+    }
+    sleb(&mut p, i64::MAX);
+    pack(&a, &mut p);
+    probes.push(p.clone());
+    p.push(0x80);
+    probes.push(p);
     for p in probes {
         load_case(cx, ops, &p, "probe");
     }
@@ -570,7 +594,7 @@ fn bool_load_case(cx: &mut Ctx, bytes: &[u8], src: &str) {
     let replay = json!({"kind": "load-bool", "source": src, "bytes": hex(bytes)});
     let (st, runs, resaved) = match guard(|| bool_load(bytes)) {
         Err(p) => {
-            cx.rep.fail(&["C35", "C15"], &format!("hexenc|panic|load|{}", p.signature()),
+            cx.rep.fail(&["C35", "C15"], &format!("hexenc|panic|load|{}", stable_sig(&p)),
                 &format!("Column::<bool>::load panicked: {} at {}", p.message, p.location), replay.clone());
             (3u128, vec![], None)
         }
@@ -689,6 +713,15 @@ fn bool_cases(cx: &mut Ctx, rng: &mut Rng, n_save: usize, n_direct: usize, n_loa
     for _ in 0..34 {
         uleb(&mut p, 1 << 60);
     }
+    probes.push(p);
+    let mut p = vec![];
+    uleb(&mut p, 1 << 63);
+    for _ in 0..31 {
+        uleb(&mut p, 1);
+    }
+    uleb(&mut p, 1 << 63);
+    probes.push(p.clone());
+    p.push(0x80);
     probes.push(p);
     for p in probes {
         bool_load_case(cx, &p, "probe");
@@ -945,7 +978,7 @@ fn delta_cases(cx: &mut Ctx, rng: &mut Rng, ops: &DeltaOps, n_save: usize, n_dir
         let replay = json!({"kind": format!("load-delta-{}", tag), "source": src, "bytes": hex(&bytes)});
         let (st, runs, resaved): (u128, Vec<(u128, Option<i64>)>, Option<Vec<u8>>) = match guard(|| (ops.load)(&bytes)) {
             Err(p) => {
-                cx.rep.fail(&["C35", "C15"], &format!("hexenc|panic|load|{}", p.signature()),
+                cx.rep.fail(&["C35", "C15"], &format!("hexenc|panic|load|{}", stable_sig(&p)),
                     &format!("DeltaColumn::<{}>::load panicked: {} at {}", tag, p.message, p.location), replay.clone());
                 (3, vec![], None)
             }
